@@ -46,6 +46,11 @@ func Parse(s string) (rule.Rule, error) {
 	if err := ruleFlagSet.flagSet.Parse(args); err != nil {
 		return nil, err
 	}
+	if ruleFlagSet.flagSet.NArg() > 0 {
+		// Flag parsing stops at the first positional argument, so anything
+		// after it would be silently dropped.
+		return nil, fmt.Errorf("unexpected argument '%v'", ruleFlagSet.flagSet.Arg(0))
+	}
 	if err := ruleFlagSet.validate(); err != nil {
 		return nil, err
 	}
